@@ -18,7 +18,8 @@ from harness.lib.model import is_err
 RULE = ('valid Interest/Data/LpPacket/certificate wires built with the real encoders (all parameter combinations, '
         'digest/HMAC/ECDSA signers, LP header subsets) and grammar-generated ones from the reflected descriptors; '
         'every single-edit mutant class: length fields +-1/x2/253-form/65536-form/non-minimal, truncations, duplicated/'
-        'swapped/deleted/unknown (critical and not) elements at every nesting level, byte flips, random bytes up to 4 kB. '
+        'swapped/deleted/unknown (critical and not) elements at every nesting level, byte flips, random bytes up to 4 kB; '
+        'elements / name components whose Length uses the 9-octet form with values >= 2^63; every decode runs under a 3 s limit. '
         'non-trivial = wire of >= 4 bytes; distinct by (decoder, wire) hash')
 ASSUMPTIONS = ['documented decoding errors = DecodeError, IndexError, ValueError (incl. UnicodeDecodeError), struct.error']
 
@@ -219,11 +220,67 @@ def check_ptrs_model(ctx, M, dec, w, raw, case):
     ctx.stat('ptrs.model-compared')
 
 
+class Hang(Exception):
+    """the decoder did not return within the time limit"""
+
+
+def with_alarm(fn, secs=3.0):
+    """run fn() under a wall-clock limit (decoding must terminate in time proportional to the input; the inputs here
+    are at most a few kB)"""
+    import signal
+
+    def on_alarm(sig, frm):
+        raise Hang()
+    old = signal.signal(signal.SIGALRM, on_alarm)
+    signal.setitimer(signal.ITIMER_REAL, secs)
+    try:
+        return fn()
+    finally:
+        signal.setitimer(signal.ITIMER_REAL, 0)
+        signal.signal(signal.SIGALRM, old)
+
+
+def huge_length_wires(w):
+    """Packets with an element whose Length uses the 9-octet form with values at and above 2^63 (what a signed read
+    of the 8 octets turns negative), placed as an unknown non-critical element after each top-level element of the
+    packet value, and as a name component; enclosing Lengths fixed up."""
+    out = []
+    try:
+        t0, a = TG.read_num(w, 0)
+        _, b = TG.read_num(w, a)
+        els = TG.tlv_walk(w[a + b:])
+    except Exception:   # noqa
+        return out
+    if not els:
+        return out
+    lens = [1 << 63, (1 << 63) + 5, (1 << 64) - 1] + [(1 << 64) - k for k in (2, 9, 10, 11, 12, 18, 20)]
+    for L in lens:
+        for ut in (0xf0, 0x80):
+            junk = bytes([ut, 0xff]) + L.to_bytes(8, 'big')
+            for i in (len(els), 1):
+                body = TG.ser(els[:i]) + junk + TG.ser(els[i:])
+                out.append(G.tlv(t0, body))
+        # as a component inside the Name (the first element of these packets)
+        if els[0][0] == 7:
+            comp = bytes([8, 0xff]) + L.to_bytes(8, 'big')
+            out.append(G.tlv(t0, G.tlv(7, els[0][1] + comp) + TG.ser(els[1:])))
+    return out
+
+
 def check_wire(ctx, M, dec, w, origin):
     raw = None
     try:
-        raw = dec.fn(w)
+        raw = with_alarm(lambda: dec.fn(w))
         r = ('ok', dec.conv(raw))
+    except Hang:
+        ctx.violation(dec.name, 'does-not-terminate', 'the decoder did not return within 3 s on a packet of '
+                      f'{len(w)} bytes', {'decoder': dec.name, 'wire': w, 'origin': origin})
+        ctx.case((dec.op, w), True, None, f'{dec.name}.{origin}.hang')
+        return
+    except MemoryError:
+        ctx.violation(dec.name, 'undocumented-exception:MemoryError', 'MemoryError while decoding',
+                      {'decoder': dec.name, 'wire': w, 'origin': origin})
+        return
     except Exception as e:   # noqa
         r = ('err', type(e).__name__, documented(e))
     m = M([dec.op, w])
@@ -393,6 +450,9 @@ def run(ctx):
             check_wire(ctx, M, dec, G.mutate_bytes(rng, w), 'bytemut')
         for w2 in length_edits(rng, w):
             check_wire(ctx, M, dec, w2, 'lenedit')
+        if di < 4 and rng.random() < ctx.n(0.15, 0.5):
+            for w2 in huge_length_wires(w):
+                check_wire(ctx, M, dec, w2, 'hugelen')
         # structural edits inside the outer element, at every level
         try:
             t0, a = TG.read_num(w, 0)
